@@ -4,6 +4,7 @@ package vsim
 
 import (
 	"fmt"
+	"sort"
 	"strings"
 
 	"github.com/gammazero/nexus/v3/wamp"
@@ -92,7 +93,61 @@ func (q *Seq) Exec(op SOp) bool {
 		if s != nil {
 			return false
 		}
+		if q.Realms[op.Realm] == nil {
+			return false
+		}
 		return q.execJoin(op)
+	}
+	if op.Kind == "rmrealm" {
+		r := q.Realms[op.Realm]
+		if r == nil {
+			return false
+		}
+		c.Fault("remove_realm")
+		q.W.R.RemoveRealm(wamp.URI(op.Realm))
+		q.Settle()
+		var exp []Exp
+		for i, x := range q.Slots {
+			if x != nil && string(x.Realm) == op.Realm {
+				exp = append(exp, Exp{To: i, Text: "GOODBYE(wamp.close.system_shutdown)"})
+			}
+		}
+		q.IgnoreMetaOnce = true
+		q.Compare(r, op.String(), exp, nil)
+		q.IgnoreMetaOnce = false
+		for i, x := range q.Slots {
+			if x != nil && string(x.Realm) == op.Realm {
+				x.Left = true
+				q.retire(x)
+				q.Slots[i] = nil
+				for slot, ci := range q.curIdx {
+					if ci == i {
+						q.curIdx[slot] = -1
+					}
+				}
+			}
+		}
+		delete(q.Realms, op.Realm)
+		for _, o := range q.Realms {
+			q.Compare(o, op.String()+" [other realm "+o.M.URI+"]", nil, nil)
+		}
+		return true
+	}
+	if op.Kind == "addrealm" {
+		if q.Realms[op.Realm] != nil || q.MkRealm == nil {
+			return false
+		}
+		cfg, m := q.MkRealm(op.Realm)
+		if err := q.W.R.AddRealm(cfg); err != nil {
+			c.Violf("step %d (%s): AddRealm failed: %v", q.Step, op.String(), err)
+			return true
+		}
+		q.AddRealm(m)
+		q.Settle()
+		for _, o := range q.Realms {
+			q.Compare(o, op.String()+" [realm "+o.M.URI+"]", nil, nil)
+		}
+		return true
 	}
 	if s == nil {
 		return false
@@ -272,6 +327,13 @@ func (q *Seq) Exec(op SOp) bool {
 	default:
 		return false
 	}
+	if len(q.Realms) > 1 {
+		for _, o := range q.Realms {
+			if o != r {
+				q.Compare(o, what+" [other realm "+o.M.URI+"]", nil, nil)
+			}
+		}
+	}
 	if q.CheckSenderPayload && (payload(sentArgs, sentKw) != payload(modelArgs, modelKw)) {
 		c.Violf("step %d (%s): the sender's own payload objects were modified by a recipient: now %s", q.Step, what, payload(sentArgs, sentKw))
 	}
@@ -376,10 +438,41 @@ func (q *Seq) execJoin(op SOp) bool {
 	q.MS = append(q.MS, ms)
 	q.Settle()
 	q.Compare(r, op.String(), r.M.Join(ms), nil)
+	if !q.historyLearnt[realm] && q.Authz == nil {
+		q.historyLearnt[realm] = true
+		q.LearnHistorySubs(op.Slot)
+	}
 	return true
 }
 
+// otherRealm returns another realm's state (for cross-realm attempts), or nil.
+func (q *Seq) otherRealm(r *SeqRealm, k int) *SeqRealm {
+	var names []string
+	for n, x := range q.Realms {
+		if x != r {
+			names = append(names, n)
+		}
+	}
+	if len(names) == 0 {
+		return nil
+	}
+	sort.Strings(names)
+	return q.Realms[names[k%len(names)]]
+}
+
 func (q *Seq) pickSub(r *SeqRealm, idx int, op SOp) (int, wamp.ID) {
+	if op.Var == 3 {
+		if o := q.otherRealm(r, op.K); o != nil {
+			for _, sub := range o.M.Subs {
+				if !sub.Deleted && len(sub.Subs) > 0 {
+					actual := o.B.subRev[sub.Sym]
+					q.C.Probe("cross_realm_unsubscribe")
+					return r.B.sub[actual], actual // in this realm that number names our own object, or nothing
+				}
+			}
+		}
+		return 0, wamp.ID(777000 + op.K)
+	}
 	var own, other []*MSub
 	for _, sub := range r.M.Subs {
 		if sub.Deleted {
@@ -408,6 +501,18 @@ func (q *Seq) pickSub(r *SeqRealm, idx int, op SOp) (int, wamp.ID) {
 }
 
 func (q *Seq) pickReg(r *SeqRealm, idx int, op SOp) (int, wamp.ID) {
+	if op.Var == 3 {
+		if o := q.otherRealm(r, op.K); o != nil {
+			for _, reg := range o.M.Regs {
+				if !reg.Deleted {
+					actual := o.B.regRev[reg.Sym]
+					q.C.Probe("cross_realm_unregister")
+					return r.B.reg[actual], actual
+				}
+			}
+		}
+		return 0, wamp.ID(777000 + op.K)
+	}
 	var own, other []*MReg
 	for _, reg := range r.M.Regs {
 		if reg.Deleted {
@@ -437,6 +542,24 @@ func (q *Seq) pickReg(r *SeqRealm, idx int, op SOp) (int, wamp.ID) {
 // callee (var 1: same numeric id space, so it may collide with an own one),
 // or an unknown id (var 2).
 func (q *Seq) pickInv(r *SeqRealm, idx int, op SOp) (int, wamp.ID) {
+	if op.Var == 3 {
+		if o := q.otherRealm(r, op.K); o != nil {
+			for _, c := range o.M.Calls {
+				if !c.Done && c.Callee >= 0 {
+					actual := o.B.invRev[c.InvSym].req
+					q.C.Probe("cross_realm_yield")
+					// the same number may name one of our own invocations
+					for _, own := range r.M.Calls {
+						if !own.Done && own.Callee == idx && r.B.invRev[own.InvSym].req == actual {
+							return own.InvSym, actual
+						}
+					}
+					return 0, actual
+				}
+			}
+		}
+		return 0, wamp.ID(555000 + op.K)
+	}
 	var own, other []*MCall
 	for _, c := range r.M.Calls {
 		if c.Done || c.Callee < 0 {
@@ -468,6 +591,17 @@ func (q *Seq) pickInv(r *SeqRealm, idx int, op SOp) (int, wamp.ID) {
 }
 
 func (q *Seq) pickCall(r *SeqRealm, idx int, op SOp) wamp.ID {
+	if op.Var == 3 {
+		if o := q.otherRealm(r, op.K); o != nil {
+			for _, c := range o.M.Calls {
+				if !c.Done {
+					q.C.Probe("cross_realm_cancel")
+					return c.Req
+				}
+			}
+		}
+		return wamp.ID(666000 + op.K)
+	}
 	var own, other []*MCall
 	for _, c := range r.M.Calls {
 		if c.Done {
